@@ -119,7 +119,11 @@ func runC08(ctx *core.Ctx, out *core.Out) {
 	}
 	hasClose := len(st.Events) > 0 && st.Events[len(st.Events)-1].Kind == 8
 	out.Eval(fmt.Sprintf("%x|%s|%d", core.Hash(string(st.Bytes)), core.J(ex), failAt), between || hasClose)
-	c08Exec(ctx, out, st, ex, failAt)
+	hist := 0
+	if failAt < 0 && r.Chance(1, 3) {
+		hist = 1 + r.Intn(2)
+	}
+	c08ExecH(ctx, out, st, ex, failAt, hist)
 	if ctx.Idx%1499 == 0 {
 		out.Sample(map[string]interface{}{"stream": st.Summary(), "exec": ex, "handler_fails_at_control": failAt})
 	}
@@ -128,9 +132,15 @@ func runC08(ctx *core.Ctx, out *core.Out) {
 var errHandler = errors.New("verif: handler says no")
 
 func c08Exec(ctx *core.Ctx, out *core.Out, st *Stream, ex rdExec, failAt int) bool {
+	return c08ExecH(ctx, out, st, ex, failAt, 0)
+}
+
+// c08ExecH: hist 0 = fresh connection, 1 = the application has already sent its own
+// close frame and keeps reading, 2 = every transport write fails.
+func c08ExecH(ctx *core.Ctx, out *core.Out, st *Stream, ex rdExec, failAt int, hist int) bool {
 	r := ctx.R
 	fail := func(sig, what string, log []c08Ev) bool {
-		d := map[string]interface{}{"exec": ex, "stream": st.Summary(), "bytes": core.Trunc(st.Bytes, 500), "handler_fails_at_control": failAt}
+		d := map[string]interface{}{"exec": ex, "stream": st.Summary(), "bytes": core.Trunc(st.Bytes, 500), "handler_fails_at_control": failAt, "history": []string{"fresh", "application sent its close first", "every transport write fails"}[hist]}
 		if log != nil {
 			if len(log) > 40 {
 				log = log[:40]
@@ -155,6 +165,15 @@ func c08Exec(ctx *core.Ctx, out *core.Out, st *Stream, ex rdExec, failAt int) bo
 	}
 	nc := xport.New(xport.Rechunk(bytesIn, ex.Chunk, r))
 	c := ws.VerifNewConn(nc, ex.Server, ex.RB, 256, nil, nil, ex.Comp)
+	switch hist {
+	case 1:
+		if err := c.WriteControl(ws.CloseMessage, ws.FormatCloseMessage(1001, "leaving"), time.Time{}); err != nil {
+			out.Inconcl("could not send the local close: " + err.Error())
+			return true
+		}
+	case 2:
+		nc.WriteErr = io.ErrClosedPipe
+	}
 	var log []c08Ev
 	seq := 0
 	nctlSeen := 0
@@ -346,6 +365,25 @@ func c08Exec(ctx *core.Ctx, out *core.Out, st *Stream, ex rdExec, failAt int) bo
 		out.Count("handler_errors_checked", 1)
 		return sticky(errHandler)
 	}
+	if hist != 0 {
+		// echoes are best effort and cannot succeed here; everything the reader owes
+		// the application is unchanged, and nothing may follow the local close
+		out.Count("streams_read_after_local_close_or_with_broken_writes", 1)
+		if hist == 1 && !(len(written) == 1 && written[0].Op == 8) {
+			return fail("frames-after-local-close", fmt.Sprintf("%d frames on the wire; the application's close must be the last thing written", len(written)), log)
+		}
+		if hist == 2 && len(written) != 0 {
+			return fail("write-log", "bytes were accepted by a transport whose writes all fail", log)
+		}
+		if hasClose {
+			ce := st.Events[len(st.Events)-1]
+			if !isCloseErr(termErr, ce.Code, ce.Reason) {
+				return fail("close-error-lost-when-echo-impossible", fmt.Sprintf("reads failed with %v, the peer's close %d %q was received in full", termErr, ce.Code, ce.Reason), log)
+			}
+			return sticky(termErr)
+		}
+		return true
+	}
 	// default handlers: one pong per ping, identical payload, in order; then the close echo
 	var wantW []wire.Frame
 	for _, e := range expCtl {
@@ -439,10 +477,12 @@ func c08Concurrent(ctx *core.Ctx, out *core.Out) {
 		return err
 	})
 	rdDone := make(chan struct{})
+	var rdErr error
 	go func() {
 		defer close(rdDone)
 		for {
 			if _, _, err := c.ReadMessage(); err != nil {
+				rdErr = err
 				return
 			}
 		}
@@ -486,7 +526,18 @@ func c08Concurrent(ctx *core.Ctx, out *core.Out) {
 			allHandled = true
 			break
 		}
+		select {
+		case <-rdDone:
+			i = 1 << 30 // the reader is gone: no more handler calls will come
+		default:
+		}
 		time.Sleep(time.Millisecond)
+	}
+	readerDiedEarly := false
+	select {
+	case <-rdDone:
+		readerDiedEarly = !allHandled
+	default:
 	}
 	elapsed := time.Since(t0)
 	a.Close()
@@ -522,6 +573,10 @@ func c08Concurrent(ctx *core.Ctx, out *core.Out) {
 			out.Violate("C08:control-frame-duplicated-under-concurrency", fmt.Sprintf("control frame with payload %q is on the wire %d times: another caller's frame was overwritten by it", p, seen[p]), desc)
 			return
 		}
+	}
+	if readerDiedEarly {
+		out.Violate("C08:reader-fails-on-conformant-pings-under-concurrency", fmt.Sprintf("the reader stopped with %v after %d of %d conformant pings although the transport was still open", rdErr, len(handled), nping), desc)
+		return
 	}
 	if !allHandled {
 		out.Inconcl(fmt.Sprintf("only %d of %d pings reached the handler within 20 s (%v elapsed)", len(handled), nping, elapsed))
